@@ -151,7 +151,8 @@ func loadProgram(repoDir string, overlay map[string][]byte, patterns []string) (
 			packages.NeedTypes | packages.NeedTypesSizes | packages.NeedSyntax | packages.NeedTypesInfo | packages.NeedModule,
 		Dir:     repoDir,
 		Overlay: overlay,
-		Env:     append(os.Environ(), "GOFLAGS=-mod=mod", "GOPROXY=off", "GOSUMDB=off", "GOTOOLCHAIN=local"),
+		// -mod=readonly: `go list -mod=mod` would rewrite /repo/go.mod (it re-sorts direct/indirect requires)
+		Env:     append(os.Environ(), "GOFLAGS=-mod=readonly", "GOPROXY=off", "GOSUMDB=off", "GOTOOLCHAIN=local"),
 	}
 	initial, err := packages.Load(cfg, patterns...)
 	if err != nil {
